@@ -27,7 +27,7 @@ OWNERS = {
     "indicator.py": ["C08", "C07", "C06"],
     "objective.py": ["C08", "C07", "C06", "C13"],
     "indicator_constraint.py": ["C08", "C18"],
-    "solver.py": ["C01", "C02", "C07", "C09", "C11", "C12", "C13", "C16", "C19", "C15"],
+    "solver.py": ["C01", "C11", "C02", "C09", "C12", "C19", "C16", "C07", "C13"],
     "solution.py": ["C16", "C11"],
     "excel_io.py": ["C16"],
     "plotter.py": ["C17"],
